@@ -338,6 +338,11 @@ var c05HostTemplates = []string{
 	"v: {{ osBase \"a/b\" }}-{{ base \"a/b\" }}",
 	"v: {{ getHostByName \"localhost\" | quote }}",
 	"v: {{ getHostByName \"canary.invalid\" | quote }}",
+	// the same functions reached through tpl, nested tpl, and a named template included from tpl text
+	"v: {{ tpl \"{{ getHostByName \\\"localhost\\\" }}\" . | quote }}",
+	"v: {{ tpl \"{{ tpl \\\"{{ getHostByName `localhost` }}\\\" . }}\" . | quote }}",
+	"v: {{ tpl \"{{ include \\\"dnshelper\\\" . }}\" . | quote }}",
+	"v: {{ tpl \"{{ .Files.Get \\\"@CANARY@\\\" }}\" . | quote }}",
 	"v: {{ .Files.Get \"files/f1.txt\" | quote }}",
 	"v: {{ include \"nohelper\" . | default \"x\" }}",
 }
@@ -420,8 +425,9 @@ func c05JudgeB(tb vt.TB, c c05BCase) {
 		run := func(variant int) c05Out {
 			h.world(variant)
 			ch := &chart.Chart{Metadata: &chart.Metadata{APIVersion: "v2", Name: "c", Version: "1.0.0"}, Values: map[string]interface{}{"s": "sv"},
-				Templates: []*chart.File{{Name: "templates/t.yaml", Data: []byte("apiVersion: v1\nkind: ConfigMap\nmetadata:\n  name: t\ndata:\n  " + h.subst(c.Template, "txt") + "\n")}},
-				Files:     []*chart.File{{Name: "files/f1.txt", Data: []byte("chart-own-file")}}}
+				Templates: []*chart.File{{Name: "templates/t.yaml", Data: []byte("apiVersion: v1\nkind: ConfigMap\nmetadata:\n  name: t\ndata:\n  " + h.subst(c.Template, "txt") + "\n")},
+					{Name: "templates/_h.tpl", Data: []byte("{{- define \"dnshelper\" -}}{{ getHostByName \"localhost\" }}{{- end -}}")}},
+				Files: []*chart.File{{Name: "files/f1.txt", Data: []byte("chart-own-file")}}}
 			in := action.NewInstall(&action.Configuration{})
 			in.ClientOnly, in.DryRun, in.ReleaseName, in.Namespace = true, true, "r", "default"
 			rel, err := in.Run(ch, map[string]interface{}{})
@@ -448,7 +454,7 @@ func c05JudgeB(tb vt.TB, c c05BCase) {
 				return
 			}
 		}
-		if strings.Contains(c.Template, "getHostByName") && a.Err == "" && c05IPLike.MatchString(a.Manifest) {
+		if (strings.Contains(c.Template, "getHostByName") || strings.Contains(c.Template, "dnshelper")) && a.Err == "" && c05IPLike.MatchString(a.Manifest) {
 			fail("C05:B/dns-lookup-although-not-enabled", a.Manifest)
 			return
 		}
